@@ -55,6 +55,9 @@ def base_pipeline(g):
              {"processor": "VNullSink"}]
     if g.chance(0.4):
         nodes.insert(3, {"processor": "VBoom"})                       # fuse from context (default 1.0 => fails unless supplied 0.0)
+    if g.chance(0.35):
+        # a node that requires the very key it (re)writes: the key must still come from the initial context
+        nodes.insert(2, {"processor": "template:\"{tplk}_x\":tplk"})
     return nodes
 
 
@@ -65,13 +68,15 @@ def make_case(g, rng):
                       "invalid_deleted_key", "invalid_use_before_create", "malformed_run_space", "over_cap", "over_cap_cli_override",
                       "missing_source_file", "missing_yaml", "usage_error", "missing_required_key", "missing_required_key",
                       "dry_validate", "dry_dry_run", "dry_run_space", "execute_ok", "execute_ok", "execute_fail", "execute_fail",
-                      "invalid_plus_validate", "missing_key_plus_dry_run"])
+                      "invalid_plus_validate", "missing_key_plus_dry_run", "missing_self_written_key"])
     nodes = base_pipeline(g)
+    if cls == "missing_self_written_key" and not any("tplk" in n["processor"] for n in nodes):
+        nodes.insert(2, {"processor": "template:\"{tplk}_x\":tplk"})
     has_boom = any(n["processor"] == "VBoom" for n in nodes)
     need = rm.key_flow(nodes)["required"]           # e.g. ["factor"|"a", "value"] (+ nothing for fuse: it has a default)
     n_runs = rng.randint(1, 4)
     vals = lambda: [round(rng.choice([1.0, 2.0, 3.0]) + 0.25 * i, 2) for i in range(n_runs)]  # noqa: E731
-    ctx_lists = {k: vals() for k in need}
+    ctx_lists = {k: (vals() if k != "tplk" else [f"s{i}" for i in range(n_runs)]) for k in need}
     fuse = [0.0] * n_runs
     first_fail = None
     if has_boom:
@@ -140,8 +145,8 @@ def make_case(g, rng):
     elif cls == "usage_error":
         argv_extra += [rng.choice(["--no-such-flag", "--run-space-max-runs=abc"])]
         expect = {"rc": 1, "executes": False}
-    elif cls in ("missing_required_key", "missing_key_plus_dry_run"):
-        k = rng.choice(sorted(need))
+    elif cls in ("missing_required_key", "missing_key_plus_dry_run", "missing_self_written_key"):
+        k = rng.choice(sorted(need)) if cls != "missing_self_written_key" else "tplk"
         del ctx_lists[k]
         expect = {"rc": 3, "executes": False}
         if cls == "missing_key_plus_dry_run":
@@ -180,7 +185,10 @@ def make_case(g, rng):
     if cls.startswith("execute") and g.chance(0.3):
         argv_extra += ["--set", "trace.options.detail=hash"]
     plan = cli.expand_plan(run_space) if isinstance(run_space.get("blocks"), list) and cls not in ("malformed_run_space", "missing_source_file") else None
-    return {"class": cls, "nodes": nodes, "run_space": run_space, "argv_extra": argv_extra, "expect": expect, "yaml": yaml_name,
+    # where the effective run space is declared: top level, nested under pipeline:, top level + a nested decoy
+    # (top level wins), or a --run-space-file + a nested decoy (the file wins)
+    placement = rng.choice(["top", "top", "nested", "top_plus_nested_decoy", "file_plus_nested_decoy"])
+    return {"placement": placement, "class": cls, "nodes": nodes, "run_space": run_space, "argv_extra": argv_extra, "expect": expect, "yaml": yaml_name,
             "plan_len": len(plan) if plan is not None else None, "first_fail": first_fail, "has_boom": has_boom}
 
 
@@ -191,12 +199,29 @@ def run_case(run, case, scratch, subprocess_=False, strace=False):
     wd = tempfile.mkdtemp(prefix="cli-", dir=scratch)
     tdir = os.path.join(wd, "trace_out")
     ypath = os.path.join(wd, case["yaml"] or "absent.yaml")
+    extra_argv: list = []
     if case["yaml"]:
-        cli.write_yaml(ypath, case["nodes"], case["run_space"],
-                       {"driver": "jsonl", "output_path": os.path.join(tdir, "t.ser.jsonl") if len(case["nodes"]) % 2 else tdir,
-                        "options": {"detail": "hash"}})
+        placement = case.get("placement", "top")
+        trace_cfg = {"driver": "jsonl", "output_path": os.path.join(tdir, "t.ser.jsonl") if len(case["nodes"]) % 2 else tdir,
+                     "options": {"detail": "hash"}}
+        decoy = {"combine": "combinatorial", "max_runs": 50,
+                 "blocks": [{"mode": "by_position", "context": {"decoy_key": [1.0]}}]}
+        if placement == "nested":
+            cli.write_yaml(ypath, case["nodes"], None, trace_cfg, nested_run_space=case["run_space"])
+        elif placement == "top_plus_nested_decoy":
+            cli.write_yaml(ypath, case["nodes"], case["run_space"], trace_cfg, nested_run_space=decoy)
+        elif placement == "file_plus_nested_decoy":
+            import yaml as _yaml
+
+            cli.write_yaml(ypath, case["nodes"], None, trace_cfg, nested_run_space=decoy)
+            rsf = os.path.join(wd, "rs_override.yaml")
+            with open(rsf, "w", encoding="utf-8") as fh:
+                _yaml.safe_dump({"run_space": case["run_space"]}, fh, sort_keys=False)
+            extra_argv = ["--run-space-file", rsf]
+        else:
+            cli.write_yaml(ypath, case["nodes"], case["run_space"], trace_cfg)
     before = cli.snapshot(wd)
-    argv = ["run", ypath, "-q"] + case["argv_extra"]
+    argv = ["run", ypath, "-q"] + extra_argv + case["argv_extra"]
     REC.clear()
     _AUDIT.update(on=not subprocess_, root=os.path.abspath(wd) + os.sep, events=[])
     strace_out = os.path.join(scratch, f"strace-{os.path.basename(wd)}.txt") if strace else None
@@ -231,6 +256,7 @@ def run_case(run, case, scratch, subprocess_=False, strace=False):
         if traced:
             run.violation(f"trace_written_although_rejected:{case['class']}", f"trace output created ({new_files}) although the invocation must not execute", witness)
         wrote = [e for e in _AUDIT["events"] if not e[1].endswith(".yaml")]
+        run.count(f"placement_{case.get('placement', 'top')}")
         if wrote and not (ran or traced):
             run.violation(f"file_written_although_rejected:{case['class']}", f"files opened for writing: {wrote}", witness)
         if strace_out and os.path.exists(strace_out):
